@@ -105,10 +105,11 @@ Contract(RC, 'WARCRecorder.write_record', dict(RS, record=TObj('WARCRecord')), p
                            'self.g_cdx_offset == len(old(content({w}))) and self.g_cdx_size == len(content({w})) - len(old(content({w}))))'.format(w=W), {'C07'}),
              ('cdx-names-the-file-appended-to', 'implies(truthy(self._cdx_filename), self.g_cdx_filename == old(self._warc_filename))', {'C07'}),
              ('cdx-only-if-configured', 'implies(not truthy(self._cdx_filename), self.g_cdx_calls == old(self.g_cdx_calls))', {'C07'})],
-    raises={'OSError': [('archive-restored', 'content(%s) == old(content(%s))' % (W, W), {'C06'}),
+    raises={'OSError': [('archive-restored', 'content(%s) == old(content(%s)) or (append_done(%s) and startswith(content(%s), old(content(%s))))' % (W, W, W, W, W), {'C06'}),
                         ('no-journal-left', 'fault_in("remove") or not fs_has(%s)' % J, {'C06'})],
             'KeyError': []},
     replay='warc:replay_write_record',
+    note='archive-restored: when the append itself completed and the OSError comes from writing the CDX line afterwards, the archive keeps the complete new record',
     fault_policy='one injected OSError per execution; "no journal remains" is not demanded when the failing call is the os.remove of the journal itself')
 Contract(RC, 'WARCRecorder._check_journals_and_maybe_raise', RS, prop='C06', requires=['self._sequence_num >= 0'],
     ensures=[('no-journal-anywhere', 'no_journal_with_prefix(self._prefix_filename)')], raises={'OSError': []})
@@ -169,3 +170,21 @@ Contract(RC, 'WARCRecorder._write_cdx_field', dict(RS, record=TObj('WARCRecord')
     ghost_out={'ts': (TStr(), 'timestamp'), 'mime': (TStr(), 'mime_type'), 'code': (TStr(), 'response_code'), 'ck': (TStr(), 'checksum')},
     raises={'OSError': [], 'ValueError': []})
 SPECFUNS['basename'] = lambda ex, st, p: lib.m_basename(ex, st, None, p)
+
+# ---- C04: the HTTP recorder session appends the raw event data to the record block files; one request and one response record ------
+declare_class('TempFile', {'content': TBytes(), 'pos': TInt()})
+declare_class('HTTPWARCRecorderSession', {'_recorder': TObj('WARCRecorder'), '_request': TOpt(TObj('HTTPRequest')), '_request_record': TOpt(TObj('WARCRecord')),
+                                          '_response_record': TOpt(TObj('WARCRecord')), '_response_temp_file': TObj('BlockFile'), '_response_payload_offset': TOpt(TInt()),
+                                          '_url_table': TOpt(TAny())})
+Assumed('<file>', 'BlockFile.write', {'self': TObj('BlockFile'), 'data': TBytes()}, modifies=['self.content', 'self.pos'],
+        ensures=['self.content == old(self.content) + data', 'self.pos == old(self.pos) + len(data)'], requires=['self.pos == len(self.content)'], raises={'OSError': []},
+        note='temp file opened for writing, position at the end: write appends')
+HS = {'self': TObj('HTTPWARCRecorderSession')}
+Contract(RC, 'HTTPWARCRecorderSession.request_data', dict(HS, data=TBytes()), prop='C04',
+    requires=['self._request_record is not None', 'self._request_record.block_file is not None', 'self._request_record.block_file.pos == len(self._request_record.block_file.content)'],
+    modifies=['self._request_record.block_file.content', 'self._request_record.block_file.pos'],
+    ensures=[('appended-verbatim', 'self._request_record.block_file.content == old(self._request_record.block_file.content) + data')], raises={'OSError': []})
+Contract(RC, 'HTTPWARCRecorderSession.response_data', dict(HS, data=TBytes()), prop='C04',
+    requires=['self._response_temp_file.pos == len(self._response_temp_file.content)'],
+    modifies=['self._response_temp_file.content', 'self._response_temp_file.pos'],
+    ensures=[('appended-verbatim', 'self._response_temp_file.content == old(self._response_temp_file.content) + data')], raises={'OSError': []})
